@@ -698,6 +698,54 @@ def rsoup(r, depth=0):
 
 
 # ------------------------------------------------------------------------------------------------
+# records of the older integer formats 5 … 20 (tie for the converter-chain transcription in Model/C36_Conv.lean)
+# ------------------------------------------------------------------------------------------------
+OLD_VARIANTS = ["plain", "plain", "del-top", "del-conn", "junk-conn", "bytes-only", "bytes-both", "type-xx", "no-type", "extra",
+                "mut1", "mut2", "conn-none", "via-junk", "resp-junk"]
+
+
+def oldfmt_record(case):
+    """a stock flow state downgraded to format `ver` with the inverse converters of harness/c38.py, then one defect"""
+    import copy
+    import c38
+    inv = [c38.inv_21_20, c38.inv_20_19, c38.inv_19_18, c38.inv_18_17, c38.inv_17_16, c38.inv_16_15, c38.inv_15_14, c38.inv_14_13,
+           c38.inv_13_12, c38.inv_12_11, c38.inv_11_10, c38.inv_10_9, c38.inv_9_8, c38.inv_8_7, c38.inv_7_6, c38.inv_6_5]
+    r = random.Random(case["seed"])
+    ver = case.get("ver") or r.randint(5, 20)
+    name = case.get("variant") or r.choice(OLD_VARIANTS)
+    kind = r.choice(["http", "http-noresp", "http-err", "ws"])
+    f = tflow.twebsocketflow() if kind == "ws" else tflow.tflow(resp=(kind == "http"), err=(kind == "http-err"))
+    if r.random() < 0.4: f.marked = r.choice(["", ":default:", ":grapes:"])
+    if r.random() < 0.3: f.client_conn.tls_version = "QUICv1"
+    def tolist(o):
+        if isinstance(o, (list, tuple)): return [tolist(x) for x in o]
+        if isinstance(o, dict): return {k: tolist(v) for k, v in o.items()}
+        return o
+    a = tolist(copy.deepcopy(f.get_state()))
+    c38.restrict_for(a, ver)
+    for i, g in enumerate(inv):
+        if 21 - i > ver: g(a)
+    try:
+        if name == "del-top": del a[r.choice([k for k in a if k != "version"])]
+        elif name == "del-conn": c = a[r.choice(["client_conn", "server_conn"])]; del c[r.choice(list(c))]
+        elif name == "junk-conn": c = a[r.choice(["client_conn", "server_conn"])]; c[r.choice(list(c))] = r.choice([None, 0, "", [], {}, "x", [1], True])
+        elif name == "bytes-only": a[b"version"] = a.pop("version")
+        elif name == "bytes-both": a[b"version"] = ver
+        elif name == "type-xx": a["type"] = r.choice(["xx", None, [1], 5])
+        elif name == "no-type": del a["type"]
+        elif name == "extra": a["zzz"] = 1
+        elif name in ("mut1", "mut2"):
+            a = mutate_state(r, a); a["version"] = ver
+            if name == "mut2": a = mutate_state(r, a); a["version"] = ver
+        elif name == "conn-none": a[r.choice(["client_conn", "server_conn"])] = r.choice([None, [], "s", 3])
+        elif name == "via-junk": a["server_conn"]["via"] = r.choice([5, "x", [1], {"a": 1}, True])
+        elif name == "resp-junk": a["response"] = r.choice([5, "x", [1], {}, {"a": 1}, None])
+    except (KeyError, IndexError, TypeError):
+        pass
+    return tnetstring.dumps(a)
+
+
+# ------------------------------------------------------------------------------------------------
 # real file objects: the same bytes through every kind of binary stream the reader meets in practice
 # ------------------------------------------------------------------------------------------------
 class ShortRaw(io.RawIOBase):
@@ -879,8 +927,8 @@ class Check(PropertyCheck):
                   "classes): a record is turned into a flow only if it is Acceptable (accepted_record_is_wellshaped), for ANY byte string "
                   "every yielded flow corresponds to an Acceptable loaded record (yielded_flows_come_from_acceptable_records), an "
                   "ill-shaped record ends the read with FlowReadException after exactly the flows before it "
-                  "(illshaped_record_stops_reader, shaped_never_other); formats 19 and 20 run through migrate_flow's loop with C38_Conv's "
-                  "convert_19_20 / convert_20_21, the stale-bytes-key refusal and the same dispatch + shape on the converted state "
+                  "(illshaped_record_stops_reader, shaped_never_other); the integer formats 5 … 20 run through migrate_flow's loop with C38_Conv's "
+                  "convert_5_6 … convert_20_21, the stale-bytes-key refusal and the same dispatch + shape on the converted state "
                   "(unconvertible_record_stops_reader, converted_accept_needs_convertible, converted_never_other); load written against a `read` environment (read(1) per prefix byte, read(n), read(1)) on a "
                   "buffered reader over ANY segmentation of the stream equals load on the whole content "
                   "(read_chunk_independent, load_chunk_independent, load_same_for_all_segmentations). The model is tied to the code differentially on values, raw/mutated files and real flows "
@@ -891,7 +939,9 @@ class Check(PropertyCheck):
                   "tie (stage-resolved: the harness observes whether an exception came before any converter / field access); "
                   "what stays a parameter: the field-level checks of set_state (value types, Literal values, certificate PEMs, proxy-mode "
                   "specs, message tuples) — the shape conditions are NECESSARY for acceptance, not sufficient, and rely on Python asserts being "
-                  "enabled; the converter chain for formats older than 19 (gate = defer); version values with float components "
+                  "enabled; format 4 (convert_4_5 draws uuids) and the tuple-era formats (gate = defer), the two converter "
+                  "branches C38_Conv leaves out (11→12 with websocket metadata, 13→14 adding 1 to a float timestamp) and records with a float "
+                  "under a key the converters test for truthiness (convert = notModelled); version values with float components "
                   "(deferShape) and float-valued error/response/websocket (shape unknown); the flow-type table includes "
                   "the test helper's 'dummy' type because mitmproxy.test.tflow is imported by the harness; the HAR importer is a parameter "
                   "of the reader model (any outcome, exceptions classified ValueError / other Exception / non-Exception; "
@@ -915,7 +965,9 @@ class Check(PropertyCheck):
             "tnetstring-shaped soups with seeded defects (signed/padded/underscored lengths, literal grammars, UTF-8 edge "
             "cases, unhashable keys, wrong tags) and random bytes; deep: nesting around the measured recursion limit; flows: "
             "1-4 flows of random types with every serialised field randomised, written with FlowWriter and read back; mut: "
-            "flow files after byte-level and state-level mutations, some through real files with huge length prefixes; fobj: multi-flow files "
+            "flow files after byte-level and state-level mutations, some through real files with huge length prefixes; oldfmt: a stock flow state downgraded to format 5 … 20 with C38's inverse "
+            "converters plus one defect (missing / junk connection fields, stale bytes version key, bad type, foreign key, state mutations) — "
+            "the tie of the converter-chain transcription; fobj: multi-flow files "
             "whose first flow is padded byte by byte so that the next record's length prefix lands on every offset from 14 before to 2 "
             "after a multiple of the buffer size, read through real file objects (open() with default / 16 / 64 / 4096 / no buffering, "
             "BufferedReader over a raw stream with short reads of 1 / 7 / 4096 bytes, a pipe); hist: "
@@ -1049,6 +1101,7 @@ class Check(PropertyCheck):
             elif c < 0.45 * heavy: yield {"k": "mut", "specs": rspecs(rng, n=rng.choice([1, 1, 2, 3]), plain_p=0.5), "seed": seed,
                                           **({"file": 1} if rng.chance(0.03) else {})}
             elif c < 0.46 * heavy + 0.01: yield {"k": "deep", "seed": seed}
+            elif c < 0.46 * heavy + 0.03: yield {"k": "oldfmt", "seed": seed}
             elif c < 0.46 * heavy + 0.07: yield {"k": "hist", "seed": seed}
             elif c < 0.46 * heavy + 0.12:
                 B = rng.choice([4096, 4096, 8192, 64, 16, 1000])
@@ -1068,6 +1121,9 @@ class Check(PropertyCheck):
                 yield {"k": "flows", "specs": [{"t": t, "seed": 6, "plain": 1, "empty": lvl}]}
         for op in HIST_OPS:
             yield {"k": "hist", "seed": 11, "ops": [op], "victim": 0}
+        for ver in range(5, 21):
+            yield {"k": "oldfmt", "seed": ver, "ver": ver, "variant": "plain"}
+            yield {"k": "oldfmt", "seed": 100 + ver, "ver": ver}
         # the second record's length prefix on every offset around the buffer boundary, through every kind of file object
         two = [{"t": "tcp", "seed": 1, "plain": 1}, {"t": "http", "seed": 2, "plain": 1}]
         for delta in range(-14, 3):
@@ -1082,6 +1138,7 @@ class Check(PropertyCheck):
     # ---- case materialisation ----------------------------------------------------------------
     def raw_data(self, case):
         if "data_hex" in case: return unhx(case["data_hex"])
+        if case["k"] == "oldfmt": return oldfmt_record(case)
         r = random.Random(case["seed"])
         c = r.random()
         if c < 0.62: d = rsoup(r)
@@ -1134,7 +1191,7 @@ class Check(PropertyCheck):
 
     # ---- implementation ----------------------------------------------------------------------
     def _impl(self, case):
-        k = case["k"]
+        k = "raw" if case["k"] == "oldfmt" else case["k"]
         if k == "val":
             v = rvalue(random.Random(case["seed"])) if "wire" not in case else from_wire(case["wire"])
             d = tnetstring.dumps(v)
@@ -1290,7 +1347,7 @@ class Check(PropertyCheck):
 
     # ---- the property ------------------------------------------------------------------------
     def oracle(self, case, obs):
-        k = case["k"]
+        k = "raw" if case["k"] == "oldfmt" else case["k"]
         fails = []
         def reader_ok(res):
             # "Loading arbitrary bytes either yields flows or fails with a flow-read error, never with any other exception."
@@ -1365,7 +1422,7 @@ class Check(PropertyCheck):
     tier = "quick"
 
     def model_lines(self, case):
-        k = case["k"]
+        k = "raw" if case["k"] == "oldfmt" else case["k"]
         if self.tier == "thorough" and k in ("flows", "mut") and case["specs"][0]["seed"] % 3:
             return None       # whole flow files are large protocol lines: the thorough tier ties every third of them
         obs = self._obs(case)
@@ -1418,7 +1475,7 @@ class Check(PropertyCheck):
         return int(data[:i]) if i else 0
 
     def model_obs(self, case, replies):
-        k = case["k"]
+        k = "raw" if case["k"] == "oldfmt" else case["k"]
         def res(s):
             p = s.split(" ")
             if p[0] == "ok": return ["ok", canon(from_wire(p[1])), p[2]]
@@ -1439,7 +1496,7 @@ class Check(PropertyCheck):
             return replies[0]
 
     def impl_view(self, case, obs):
-        k = case["k"]
+        k = "raw" if case["k"] == "oldfmt" else case["k"]
         def rd(r):
             return "har" if self._is_har(obs, case) else f"{r[0]} {'escapes' if r[1].startswith('other:') else r[1]} {obs['outcomes']}"
         if k == "val":
@@ -1466,13 +1523,13 @@ class Check(PropertyCheck):
         return d[:1] == b"{" or d == b"\xef\xbb\xbf{"
 
     def classify(self, case, obs):
-        if case["k"] in ("val", "raw", "deep"):
+        if case["k"] in ("val", "raw", "deep", "oldfmt"):
             key = obs.get("data_hex") or obs.get("dumps_hex")
             return None if key in (None, "-") else (case["k"], digest(key.encode()))
         return (case["k"], digest(json.dumps(case, sort_keys=True).encode()))
 
     def branches(self, case, obs):
-        k = case["k"]
+        k = "raw" if case["k"] == "oldfmt" else case["k"]
         out = ["kind:" + k]
         if k == "raw":
             out.append("raw:load:" + (obs["load"][1] if obs["load"][0] == "err" else "ok"))
@@ -1480,6 +1537,7 @@ class Check(PropertyCheck):
             out.append("raw:read:" + obs["read"][1])
             if case.get("file"): out.append("raw:real-file")
             if obs["outcomes"] != "-": out.append("raw:from_state:" + obs["outcomes"][-1])
+            if case["k"] == "oldfmt": out.append("oldfmt:" + obs["outcomes"][-1:])
         elif k == "mut":
             out.append("mut:read:%s:%s" % (min(obs["read"][0], 3), obs["read"][1]))
             oc = obs["outcomes"]
